@@ -59,6 +59,12 @@ MulDivQR(a, b, c) == IF a = 0 THEN [q |-> 0, r |-> 0]
                           IN [q |-> q1 + r1 \div c, r |-> r1 % c]
 MulDiv(a, b, c) == MulDivQR(a, b, c).q
 \* the guessed probe: begin + (target-begintime)*(end-begin)/(endtime-begintime) - CHUNK, not before begin+CHUNK (else begin)
+\* (the pinned tree interpolated without looking at the operands: an empty time span divides by zero - NaN, in practice an offset near 2^63, written
+\*  here as a million - and a target beyond the span overshoots the byte range)
+GuessPinned(begin, end, begintime, endtime, target, CHUNK) ==
+  IF end - begin < CHUNK THEN begin
+  ELSE LET raw == IF endtime = begintime THEN 1000000 ELSE IF endtime < begintime \/ target < begintime THEN 0 ELSE MulDiv(target - begintime, end - begin, endtime - begintime)
+           g == begin + raw - CHUNK IN IF g < begin + CHUNK THEN begin ELSE g
 Guess(begin, end, begintime, endtime, target, CHUNK) ==
   IF end - begin < CHUNK THEN begin
   ELSE LET raw == IF endtime > begintime /\ target > begintime THEN MulDiv(target - begintime, end - begin, endtime - begintime) ELSE 0
@@ -78,7 +84,8 @@ Run(PG, st, target, K, fuel) ==
   IF fuel = 0 THEN [st EXCEPT !.steps = -1]                                   \* did not terminate within the bound
   ELSE IF ~(st.begin < st.end) THEN st
   ELSE IF ~st.inner
-  THEN LET b == Guess(st.begin, st.end, st.begintime, st.endtime, target, K.chunk) IN
+  THEN LET b == IF "guess" \in DOMAIN K /\ K.guess = "pinned" THEN GuessPinned(st.begin, st.end, st.begintime, st.endtime, target, K.chunk)
+                ELSE Guess(st.begin, st.end, st.begintime, st.endtime, target, K.chunk) IN
        Run(PG, [SeekTo(st, b) EXCEPT !.bisect = b, !.inner = TRUE, !.steps = st.steps + 1], target, K, fuel - 1)
   ELSE LET g == GetNext(PG, st, st.end - st.off, K) IN
        IF g.r = 0
